@@ -12,6 +12,7 @@ TIERS = {
     "treasury": ({"n": 40}, {"n": 1500}),
     "config": ({"n": 60}, {"n": 3000}),
     "hook": ({"n": 600}, {"n": 20000}),
+    "migrate": ({"n": 120}, {"n": 5000}),
     "own": ({"n": 120}, {"n": 4000}),
     "matrix": ({"shards": 4, "histories": 4, "length": 40}, {"shards": 16, "histories": 40, "length": 60}),
     "world": ({"shards": 8, "histories": 30, "length": 60}, {"shards": 16, "histories": 500, "length": 80}),
